@@ -12,6 +12,7 @@
 (*                      equal value of the same type,                      *)
 (*              us  |-> no sub-second part,                                *)
 (*              r   |-> repr (only compared for equality)]                 *)
+(*   p.unit    repr of the unit or "none" (only compared for equality)     *)
 (*   p.selfassign  "same" | "changed" | "raised": effect of p.values =     *)
 (*             p.values                                                    *)
 (* and the acceptance table of the REFERENCE model.                        *)
@@ -34,7 +35,7 @@ ValueOK(d, v) == /\ v.pt = TypeOf(d)
                  /\ v.us
 Conforms(p) == /\ (p.dtype \in Dtypes \/ (p.dtype = "none" /\ p.vals = <<>>))
                /\ \A i \in DOMAIN p.vals : ValueOK(p.dtype, p.vals[i])
-Same(p, q) == p.dtype = q.dtype /\ p.vals = q.vals
+Same(p, q) == p.dtype = q.dtype /\ p.vals = q.vals /\ p.unit = q.unit       \* unit: a refused extend(<Property>) may not have adopted the unit
 ValueOps == {"ctor", "set_values", "append", "extend", "insert", "setitem", "merge"}
 \* o = [op, out, exc, pre, post]; pre = [dtype |-> "absent", ...] for a constructor
 Atomic(o) == o.out = "raised" => (IF o.op.name = "ctor" THEN o.post.dtype = "absent" ELSE Same(o.pre, o.post))
@@ -65,7 +66,7 @@ Empties == {"none", "empty", "elist", "edict"}
 Lists == {"list_int", "list_str", "list_mixed", "list_s_int", "list_tuple2", "list_tuple2p", "list_tuple23"}     \* ..2p: a component with brackets in it; ..23: a 2- and a 3-tuple
 \* another Property handed to extend ("one can also pass another Property ... units must match"): two int values,
 \* two string values, two int values with a unit the destination does not have
-PropInputs == {"prop_int", "prop_str", "prop_unit"}
+PropInputs == {"prop_int", "prop_str", "prop_unit", "prop_unit_str"}    \* ..unit_str: a unit the destination lacks and a text value an int cannot take
 Classes == Scalars \cup Empties \cup Lists
 AccYes(f) == CASE f = "str"      -> {"str", "text", "list_str", "prop_str"}
                [] f = "int"      -> {"int", "int0", "negint", "s_int", "list_int", "list_s_int", "bigint", "s_int_ws", "prop_int"}
@@ -116,7 +117,7 @@ Post(s, op) ==
          ELSE IF s.n = 0 THEN SetValuesPost(s, op.in)
          ELSE Grow(s, op.in, 1)
     [] op.name = "extend" ->
-         IF op.in = "prop_unit" THEN {R("raised", s)}            \* units differ: refused
+         IF op.in \in {"prop_unit", "prop_unit_str"} THEN {R("raised", s)}            \* units differ: refused
          ELSE IF s.n = 0 THEN SetValuesPost(s, op.in)
          ELSE IF op.in \in Empties THEN {R("ok", s), R("ok", Abs(s.d, s.n + 1)), R("raised", s)}
          ELSE Grow(s, op.in, ListLen(op.in))
